@@ -80,7 +80,9 @@ pub fn c05_build(raw: &Raw, _tier: Tier, _sched: bool) -> Scenario {
                     b.s.threads[th].push(Op::Stall(stall_of(r.a)));
                     continue;
                 }
-                let o = ActOpts { reducers: &reds, middlewares: &[], effects: false, followups: false, veto: false, keeps: true, panics: false };
+                // reducers may return effects, incl. Effect::Action / thunks whose follow-ups are
+                // dispatched by workers into the (possibly full) queue
+                let o = ActOpts { reducers: &reds, middlewares: &[], effects: true, followups: true, veto: false, keeps: true, panics: false };
                 let a = scripted_action(&mut b, s, r, &o);
                 b.s.threads[th].push(Op::Dispatch { act: a, via: via_of(r) });
             }
